@@ -1053,3 +1053,121 @@ def rule_fast_dimension_coadjusted(ctx):
             ctx.holds("COADJUST", key, f.where(line), "transfer count and both odometer steps (%s) of dimension `%s` are adjusted together" % (", ".join(sorted(steps)), assigned["iocount"]), nontrivial=True)
     ctx.floor("COADJUST", 1, n, "(arms of NCgenio that change the transfer count of a dimension)")
     return n
+
+
+def rule_fill_pair_extent(ctx):
+    """FILLPAIR (C03): where a buffer is pre-filled, the user's fill value and the type's default are two arms of one `if`:
+    `HDmemfill(buf, fillvalue, size, n)` replicates one item n times, `NC_arrayfill(buf, bytes, type)` fills a byte length.
+    Both arms prepare the same buffer for the same consumer, so they cover the same extent: bytes == n * size (written out,
+    or a local that is assigned that product).  An arm that covers less hands the rest of the buffer on as it was."""
+    from .codec import ast_walk
+    prog = ctx.prog
+    n = 0
+    for f in prog.lib_funcs():
+        ast = f.raw.get("ast")
+        if not ast or not f.rel.startswith("mfhdf/src/"):
+            continue
+        pairs = []
+
+        def only_call(nd, names):
+            found = []
+            ast_walk(nd, lambda k, st: (found.extend(c for c in (calls_in(k[1], True) if k[0] in ("s", "if") and k[1] is not None else []) if c[1] in names), True)[1])
+            return found[0] if len(found) == 1 else None
+
+        def vis(nd, st):
+            if nd[0] == "if" and nd[2] is not None and nd[3] is not None:
+                a = only_call(nd[2], ("HDmemfill",))
+                b = only_call(nd[3], ("NC_arrayfill", "H4_NC_arrayfill"))
+                if a and b and len(a[3]) > 3 and len(b[3]) > 1 and render(strip(a[3][0])) == render(strip(b[3][0])):
+                    pairs.append((nd, a, b))
+            return True
+
+        ast_walk(ast, vis)
+        if not pairs:
+            continue
+        products = {}
+        for _b, _i, _s, x in f.nodes(True):
+            tgt = rhs = None
+            if x[0] == "asg" and x[1] == "=" and kind(strip(x[2])) == "var":
+                tgt, rhs = strip(x[2])[1], strip(x[3])
+                if kind(rhs) == "bin" and rhs[1] == "*":
+                    products.setdefault(tgt, []).append(frozenset((render(strip(rhs[2])), render(strip(rhs[3])))))
+            elif x[0] == "decl":
+                for d in x[1]:
+                    r = strip(d[2]) if d[2] is not None else None
+                    if kind(r) == "bin" and r[1] == "*":
+                        products.setdefault(d[0], []).append(frozenset((render(strip(r[2])), render(strip(r[3])))))
+        occ = 0
+        for nd, a, b in pairs:
+            occ += 1
+            n += 1
+            key = "FILLPAIR:%s#%d" % (f.name, occ)
+            line = nd[-3] if isinstance(nd[-3], int) else f.line
+            want = frozenset((render(strip(a[3][3])), render(strip(a[3][2]))))
+            m = strip(b[3][1])
+            ok = False
+            if kind(m) == "bin" and m[1] == "*" and frozenset((render(strip(m[2])), render(strip(m[3])))) == want:
+                ok = True
+            elif kind(m) == "var" and want in products.get(m[1], []):
+                ok = True
+            if ok:
+                ctx.holds("FILLPAIR", key, f.where(line), "HDmemfill(%s x %s) and NC_arrayfill(%s) cover the same extent of `%s`" % (render(strip(a[3][3]))[:30], render(strip(a[3][2]))[:20], render(m)[:30], render(strip(a[3][0]))[:20]), nontrivial=True)
+            else:
+                ctx.violated("FILLPAIR", key, f.where(line), "the two arms fill different extents of `%s`: HDmemfill replicates %s items of %s bytes, NC_arrayfill covers `%s` bytes - what the shorter arm leaves is handed on unfilled" % (render(strip(a[3][0]))[:20], render(strip(a[3][3]))[:40], render(strip(a[3][2]))[:20], render(m)[:40]))
+    ctx.floor("FILLPAIR", 5, n, "(user-fill / default-fill arm pairs)")
+    return n
+
+
+def rule_record_count_owner(ctx):
+    """RECOWNER (C02, C03): in an HDF file every record variable has its own number of records (NC_var.numrecs); the file-wide
+    NC.numrecs is the netCDF notion (one record dimension shared by all) and in an HDF file only the maximum over the
+    variables.  Wherever a test of `file_type` against HDF_FILE chooses which count to use - for the shape SDgetinfo reports,
+    the bound SDreaddata checks, the dimension record written to the file - the HDF arm takes the variable's count and the
+    other arm the file's.  With the arms exchanged a short variable is described (to other readers of the file) with the
+    longest variable's length."""
+    from .codec import ast_walk
+    from .facts import int_name
+    prog = ctx.prog
+    n = 0
+
+    def reads(nd):
+        out = []
+
+        def v(k, st):
+            if k[0] in ("s", "if", "while", "switch") and k[1] is not None:
+                for x in walk(k[1], True):
+                    if x[0] == "mem" and x[2] == "numrecs":
+                        out.append(x[3])
+            return True
+
+        if nd is not None:
+            ast_walk(nd, v)
+        return out
+
+    for f in prog.lib_funcs():
+        ast = f.raw.get("ast")
+        if not ast or not f.rel.startswith("mfhdf/src/"):
+            continue
+        found = []
+
+        def vis(nd, st):
+            if nd[0] == "if" and nd[1] is not None:
+                c = strip(nd[1])
+                if kind(c) == "bin" and c[1] in ("==", "!=") and kind(strip(c[2])) == "mem" and strip(c[2])[2] == "file_type" and int_name(c[3]) == "HDF_FILE":
+                    a, b = reads(nd[2]), reads(nd[3])
+                    if a or b:
+                        found.append((nd, c[1], a, b))
+            return True
+
+        ast_walk(ast, vis)
+        for k, (nd, op, a, b) in enumerate(found, 1):
+            n += 1
+            key = "RECOWNER:%s#%d" % (f.name, k)
+            line = nd[-3] if isinstance(nd[-3], int) else f.line
+            hdf, other = (a, b) if op == "==" else (b, a)
+            if "NC" in hdf and "NC_var" not in hdf or "NC_var" in other:
+                ctx.violated("RECOWNER", key, f.where(line), "the HDF_FILE arm reads %s and the other arm %s: an HDF variable is given the file-wide record count (the longest variable's)" % ("/".join(sorted(set(hdf))) + ".numrecs" if hdf else "nothing", "/".join(sorted(set(other))) + ".numrecs" if other else "nothing"))
+            else:
+                ctx.holds("RECOWNER", key, f.where(line), "the HDF_FILE arm takes the variable's own record count%s" % (", the other arm the file's" if other else ""), nontrivial=True)
+    ctx.floor("RECOWNER", 4, n, "(file_type tests that choose a record count)")
+    return n
